@@ -1361,8 +1361,26 @@ Proof.
   { destruct (directory_consistent d I) as [_ [_ [_ [_ [_ [A [B _]]]]]]].
     destruct op; cbn [set_by_oper] in G; [discriminate|now apply (A name l)|now apply (B name l)]. }
   pose proof (steps_nearest fwd l cur S) as N. split; auto.
-  unfold vm_dnextm. rewrite G. apply (or_null_nonempty l); auto.
+  unfold vm_dnextm, vm_dnextm_gen. rewrite G. apply (or_null_nonempty l); auto.
   intros y E. rewrite E in N. now apply nearest_In in N.
+Qed.
+
+(* The repaired dnextm: nearest remaining member, NULL when none is left -- in particular
+   when the group or location itself is gone; never a fault. *)
+Definition members_now (d : dir) (op : operand) (name : string) : list string :=
+  match set_by_oper d op name with Some l => l | None => [] end.
+
+Theorem vm_dnextm_fixed_nearest : forall d op name fwd cur, dir_inv d ->
+  ~ In EmptyString (members_now d op name) ->
+  exists r, vm_dnextm_fixed d op name fwd cur = to_result r /\ nearest fwd (members_now d op name) cur r.
+Proof.
+  intros d op name fwd cur I NE. unfold members_now in *.
+  destruct (set_by_oper d op name) as [l|] eqn:G.
+  - destruct (vm_dnextm_nearest_while_listed d op name fwd cur l I G NE) as [r [H1 H2]].
+    exists r. split; auto. unfold vm_dnextm_fixed, vm_dnextm_gen. unfold vm_dnextm, vm_dnextm_gen in H1.
+    now rewrite G in *.
+  - exists None. unfold vm_dnextm_fixed, vm_dnextm_gen. rewrite G. split; auto.
+    destruct fwd; cbn; tauto.
 Qed.
 
 (* Pinned tree: once the group (location) being iterated has lost its last light,
